@@ -135,7 +135,104 @@ func (c *Ctx) Load(rel ...string) error {
 	}
 	prog.Build()
 	c.Prog = prog
+	c.applyParamBaseline()
 	return nil
+}
+
+// ParamAlias maps a parameter to the name it had when the rules were written.
+// Rules identify values by descriptions such as "p:m.bufCur"; those contain
+// parameter (and receiver) names, which a maintainer is free to change. The
+// file checker/param_names.json records, per function, the parameter names of
+// the tree the rules were written against; a parameter at the same position of
+// the same function is described under its recorded name whatever it is called
+// today. Functions not in the file, or whose parameter count changed, are
+// described with their real names.
+var ParamAlias = map[*ssa.Parameter]string{}
+
+// ParamName is the name under which a parameter is described.
+func ParamName(p *ssa.Parameter) string {
+	if a, ok := ParamAlias[p]; ok {
+		return a
+	}
+	return p.Name()
+}
+
+func (c *Ctx) applyParamBaseline() {
+	b, err := os.ReadFile(filepath.Join(c.VerifDir, "checker", "param_names.json"))
+	if err != nil {
+		return
+	}
+	base := map[string][]string{}
+	if json.Unmarshal(b, &base) != nil {
+		return
+	}
+	for _, f := range c.AllSourceFuncs() {
+		names, ok := base[FuncID(f)]
+		if !ok || len(names) != len(f.Params) {
+			continue
+		}
+		for i, p := range f.Params {
+			if names[i] != "" && names[i] != p.Name() {
+				ParamAlias[p] = names[i]
+			}
+		}
+	}
+}
+
+// AllSourceFuncs lists every function with a body in the loaded packages,
+// nested function literals included.
+func (c *Ctx) AllSourceFuncs() []*ssa.Function {
+	var out []*ssa.Function
+	seen := map[*ssa.Function]bool{}
+	var add func(f *ssa.Function)
+	add = func(f *ssa.Function) {
+		if f == nil || seen[f] || len(f.Blocks) == 0 {
+			return
+		}
+		seen[f] = true
+		out = append(out, f)
+		for _, a := range f.AnonFuncs {
+			add(a)
+		}
+	}
+	for _, sp := range c.SSA {
+		for _, m := range sp.Members {
+			switch x := m.(type) {
+			case *ssa.Function:
+				add(x)
+			case *ssa.Type:
+				for _, t := range []types.Type{x.Type(), types.NewPointer(x.Type())} {
+					ms := c.Prog.MethodSets.MethodSet(t)
+					for i := 0; i < ms.Len(); i++ {
+						add(c.Prog.MethodValue(ms.At(i)))
+					}
+				}
+			}
+		}
+	}
+	sort.Slice(out, func(i, j int) bool { return FuncID(out[i]) < FuncID(out[j]) })
+	return out
+}
+
+// ParamNames is the table written by `tdcheck -dump-params`.
+func (c *Ctx) ParamNames() map[string][]string {
+	out := map[string][]string{}
+	for _, f := range c.AllSourceFuncs() {
+		if f.Pkg == nil {
+			continue
+		}
+		if _, mine := c.SSA[strings.TrimPrefix(strings.TrimPrefix(f.Pkg.Pkg.Path(), Module), "/")]; !mine {
+			continue
+		}
+		var names []string
+		for _, p := range f.Params {
+			names = append(names, p.Name())
+		}
+		if len(names) > 0 {
+			out[FuncID(f)] = names
+		}
+	}
+	return out
 }
 
 // Position renders a token.Pos relative to the repository root.
